@@ -5,4 +5,5 @@ cd "$(dirname "$0")"
 export GOFLAGS=-mod=mod GOPROXY=off GOSUMDB=off GOTOOLCHAIN=local
 mkdir -p bin evidence
 (cd engine && go build -o ../bin/gocosym .)
+(cd engine && go test -count=1 -run TestDecodeRune . >/dev/null) || { echo "engine decoder self-test failed"; exit 1; }
 echo "setup ok"
